@@ -10,10 +10,11 @@ OpenMDAO's internal COO format.
 from pprint import pformat
 
 import numpy as np
-from numpy import bincount, isscalar
+from numpy import isscalar
 from scipy.sparse import coo_matrix, csr_matrix, csc_matrix, issparse
 
 from openmdao.utils.indexer import idx_list_to_index_array
+from openmdao.utils.array_utils import bincount_cs
 
 # from openmdao.devtools.debug import DebugDict
 
@@ -805,29 +806,6 @@ class COOSubjac(SparseSubjac):
                     self.info['uncovered_threshold'] = uncovered_threshold
                 self.info['uncovered_nz'].extend(list(zip(nzs, icol * np.ones_like(nzs))))
 
-    def set_dtype(self, dtype):
-        """
-        Set the dtype of the subjacobian.
-
-        Parameters
-        ----------
-        dtype : dtype
-            The type to set the subjacobian to.
-        """
-        if dtype.kind == self.info['val'].dtype.kind:
-            return
-
-        self._in_view = None
-        self._out_view = None
-        self._res_view = None
-
-        if dtype.kind == 'f':
-            self.info['val'] = np.ascontiguousarray(self.info['val'].real, dtype=dtype)
-        elif dtype.kind == 'c':
-            self.info['val'] = np.asarray(self.info['val'], dtype=dtype)
-        else:
-            raise ValueError(f"Subjacobian {self.key}: Unsupported dtype: {dtype}")
-
 
 class CSRSubjac(SparseSubjac):
     """
@@ -1181,6 +1159,29 @@ class OMCOOSubjac(COOSubjac):
         self._set_coo_col(icol, column, self.info['val'], self.rows, self.cols,
                           uncovered_threshold)
 
+    def set_dtype(self, dtype):
+        """
+        Set the dtype of the subjacobian.
+
+        Parameters
+        ----------
+        dtype : dtype
+            The type to set the subjacobian to.
+        """
+        if dtype.kind == self.info['val'].dtype.kind:
+            return
+
+        self._in_view = None
+        self._out_view = None
+        self._res_view = None
+
+        if dtype.kind == 'f':
+            self.info['val'] = np.ascontiguousarray(self.info['val'].real, dtype=dtype)
+        elif dtype.kind == 'c':
+            self.info['val'] = np.asarray(self.info['val'], dtype=dtype)
+        else:
+            raise ValueError(f"Subjacobian {self.key}: Unsupported dtype: {dtype}")
+
     def _apply_fwd_input(self, d_inputs, d_outputs, d_residuals, randgen=None):
         if self._in_view is None:
             self._in_view = d_inputs.get_slice(self.col_slice)
@@ -1188,7 +1189,8 @@ class OMCOOSubjac(COOSubjac):
 
         val = self.info['val'] if randgen is None else self.get_rand_val(randgen)
         # bincount allows rows and cols to contain repeated (row, col) pairs.
-        self._res_view += bincount(self.rows, self._in_view[self.cols] * val, minlength=self.nrows)
+        self._res_view += bincount_cs(self.rows, self._in_view[self.cols] * val,
+                                      minlength=self.nrows)
 
     def _apply_fwd_output(self, d_inputs, d_outputs, d_residuals, randgen=None):
         if self._out_view is None:
@@ -1197,7 +1199,8 @@ class OMCOOSubjac(COOSubjac):
 
         val = self.info['val'] if randgen is None else self.get_rand_val(randgen)
         # bincount allows rows and cols to contain repeated (row, col) pairs.
-        self._res_view += bincount(self.rows, self._out_view[self.cols] * val, minlength=self.nrows)
+        self._res_view += bincount_cs(self.rows, self._out_view[self.cols] * val,
+                                      minlength=self.nrows)
 
     def _apply_rev_input(self, d_inputs, d_outputs, d_residuals, randgen=None):
         if self._in_view is None:
@@ -1205,8 +1208,8 @@ class OMCOOSubjac(COOSubjac):
             self._res_view = d_residuals.get_slice(self.row_slice)
 
         val = self.info['val'] if randgen is None else self.get_rand_val(randgen)
-        self._in_view += bincount(self.cols, self._res_view[self.rows] * val,
-                                  minlength=self.parent_ncols)
+        self._in_view += bincount_cs(self.cols, self._res_view[self.rows] * val,
+                                     minlength=self.parent_ncols)
 
     def _apply_rev_output(self, d_inputs, d_outputs, d_residuals, randgen=None):
         if self._out_view is None:
@@ -1214,8 +1217,8 @@ class OMCOOSubjac(COOSubjac):
             self._res_view = d_residuals.get_slice(self.row_slice)
 
         val = self.info['val'] if randgen is None else self.get_rand_val(randgen)
-        self._out_view += bincount(self.cols, self._res_view[self.rows] * val,
-                                   minlength=self.parent_ncols)
+        self._out_view += bincount_cs(self.cols, self._res_view[self.rows] * val,
+                                      minlength=self.parent_ncols)
 
 
 class DiagonalSubjac(SparseSubjac):
